@@ -56,6 +56,11 @@ def user_model(name):
         return TimeReversibleNucleotide(predicates=[p1, p2], name="user", recode_gaps=True)
     if name == "user:NonReversibleNucleotide":
         return NonReversibleNucleotide(predicates=[MotifChange("A", "G", forward_only=True).aliased("u_fwd")], name="user_ns")
+    if name.startswith("user:Dinucleotide:"):
+        from cogent3.evolve.substitution_model import TimeReversibleDinucleotide
+
+        k = (MotifChange("A", "G") | MotifChange("C", "T")).aliased("kappa")
+        return TimeReversibleDinucleotide(predicates=[k], name="dinuc", mprob_model=name.split(":")[2])
     raise ValueError(name)
 
 
